@@ -22,13 +22,13 @@ for r in rows:
     new_tbl+='| %s | %s | %s | %s |\n'%(c[0],c[1],c[4],c[5][:120])
 s=s[:i]+new_tbl+'\n'+s[j:]
 k=s.index('## 10. Measured on this machine')
-hdr='''## 10. Measured on this machine (16 cores; quick numbers from the committed evidence files, thorough numbers from `notes/thorough-run-2026-10-03b.txt`, which ran while a seed sweep was using 14 of the 16 cores, before the fourth-round dimensions were added)
+hdr='''## 10. Measured on this machine (16 cores; quick numbers from the committed evidence files, thorough numbers from `notes/thorough-run-2026-10-03c.txt`)
 
 | property | harnesses (quick) | paths (quick) | SSA instructions | solver queries | native replays | wall (quick) | paths (thorough) | wall (thorough) |
 |---|---|---|---|---|---|---|---|---|
 '''
 th={}
-for f in sorted(glob.glob('/verif/notes/thorough-run-2026-10-03b.txt')):
+for f in sorted(glob.glob('/verif/notes/thorough-run-2026-10-03c.txt')):
     for l in open(f):
         m=re.match(r'PASS property=(C\d+) tier=thorough paths=(\d+) .* wall=([\d.]+)s',l)
         if m: th[m.group(1)]=(m.group(2),m.group(3))
